@@ -70,7 +70,7 @@ if [ "$TIER" = "thorough" ]; then
   MIRI_RC=$?
   MIRI_SEEDS=$NSEEDS
   if [ $MIRI_RC -ne 0 ]; then
-    if grep -qE 'Data race detected|Undefined Behavior|concurrent evaluations differ|same evaluation twice' target/c18_miri.log; then
+    if grep -qE 'Data race detected|Undefined Behavior|differ' target/c18_miri.log; then
       R="replays/C18/miri-$SEED.log"; cp target/c18_miri.log "$R"
       grep -m2 -B2 -A12 -E 'Data race detected|Undefined Behavior|differ' target/c18_miri.log | head -40
       echo "clause: data-race-or-divergence-under-miri"
